@@ -410,6 +410,37 @@ def faults():
             return m
         yield (f"name/clash-generated/{how}", clash_gen)
 
+    # ---- a sound child, edited into an ill-formed one after the elaboration of a parent failed LATE (the child had been
+    #      through every checking pass by then; it is not elaborated, so the edit is accepted)
+    for how in ("missing-connection", "wide-connection", "foreign-signal"):
+        def after_failed_parent(how=how):
+            B = B2()
+            cb = child_with_bundle(B)
+            ch = h.Module(name="SoundChild")
+            ch.p = h.Port()
+            ch.e = E(("a", 1), ("b", 1))()(a=ch.p, b=ch.p)
+            par = base()
+            par.c = ch(p=par.s1)
+            par.k = cb(q=h.AnonymousBundle(x=par.s1, y=par.s1))      # x is 2 bits wide: refused by the repeated check
+            try:
+                h.elaborate(par)
+            except Exception:
+                pass
+            else:
+                raise AssertionError("the parent was accepted")
+            try:
+                if how == "missing-connection":
+                    ch.late = E(("a", 1), ("b", 1))()(a=ch.p)
+                elif how == "wide-connection":
+                    ch.add(h.Signal(width=3), name="wide")
+                    ch.late = E(("a", 1), ("b", 1))()(a=ch.p, b=ch.wide)
+                else:
+                    ch.late = E(("a", 1), ("b", 1))()(a=ch.p, b=h.Signal(name="nobodys"))
+            except Exception:
+                raise NotAFault()
+            return ch
+        yield (f"late/child-edited-after-parent-failed/{how}", after_failed_parent)
+
     # ---- a signal resized after a slice / concatenation of it was made and its width looked at: the design as it
     #      stands has an empty or out-of-range index, or a connection of the wrong width
     def resized(kind, query):
